@@ -14,7 +14,7 @@ import (
 func init() {
 	register(&Property{
 		ID: "C17",
-		Explanation: "R1 (slot units / one grid): the expression reduced modulo len(values) in the slot->bucket mapping is rebuilt from SSA and its physical dimension inferred (Duration/Time = ns, Unix() = s); it must be dimensionless 'slots' of the form quantised-time / resolution, so that N consecutive slots map to N distinct buckets for every resolution; and the staleness comparison of the clean-up must quantise both the check point and lastUpdated on the same grid (Time.Truncate(resolution) or division by resolution) with a strict 'later slot' comparison, zeroing the bucket the mapping assigns to that check point. R2 (clean before use): in every exported method of the counter, every path to a read or write of a bucket element (followed through module callees) first passes the clean-up routine (methods that only store zeros are exempt). R3: every floating-point ratio over counters (RatioCounter.Ratio, RTMetrics.NetworkErrorRatio / ResponseCodeRatio) divides only on the edge where its denominator expression was tested non-zero and returns 0 on the other edge.",
+		Explanation: "R1 (slot units / one grid): the expression reduced modulo len(values) in the slot->bucket mapping is rebuilt from SSA and its physical dimension inferred (Duration/Time = ns, Unix() = s); it must be dimensionless 'slots' of the form quantised-time / resolution, so that N consecutive slots map to N distinct buckets for every resolution; and the staleness comparison of the clean-up must quantise both the check point and lastUpdated on the same grid (Time.Truncate(resolution) or division by resolution) with a strict 'later slot' comparison, zeroing the bucket the mapping assigns to that check point. R2 (clean before use): in every exported method of the counter, every path to a read or write of a bucket element (followed through module callees) first passes the clean-up routine (methods that only store zeros are exempt). R3: every floating-point ratio over counters (RatioCounter.Ratio, RTMetrics.NetworkErrorRatio / ResponseCodeRatio) divides only on the edge where its denominator expression was tested non-zero and returns 0 on the other edge. R4 (bookkeeping shape): the clean-up visits exactly the check points now - i x resolution for i = 0 .. len(buckets)-1 (loop counter from 0, step 1, bound len(buckets)); Count is a full-range sum of the buckets; an increment adds its argument to the bucket of `now` and sets lastUpdated to that same instant.",
 		NotDecided: []string{
 			"the two-sided window inequality (sum over last (N-1)r <= Count <= sum over last N r) for every history: arithmetic over unbounded histories, no sound static argument in reach",
 			"loop bounds of the clean-up (how many check points are visited)",
@@ -288,6 +288,9 @@ func runC17(p *Prog, r *Report) {
 	}
 	r.Floor("C17.R2", n, 3, "exported counter methods that touch buckets")
 
+	// ---- R4: shape of the window bookkeeping (each clause a necessary condition of the window bounds) ----
+	c17Shape(p, r, c)
+
 	// ---- R3: zero-guarded ratios ----
 	nr := 0
 	for _, spec := range [][3]string{{"memmetrics", "RatioCounter", "Ratio"}, {"memmetrics", "RTMetrics", "NetworkErrorRatio"}, {"memmetrics", "RTMetrics", "ResponseCodeRatio"}} {
@@ -377,6 +380,11 @@ func checkZeroGuardedDivisions(p *Prog, r *Report, fn *ssa.Function, rule string
 func mutantsC17() []Mutant {
 	f := "memmetrics/counter.go"
 	return []Mutant{
+		{Name: "cleanup-skips-newest-slot", File: f, Old: "\tfor i := 0; i < len(c.values); i++ {", New: "\tfor i := 1; i < len(c.values); i++ {", Expect: "C17.R4"},
+		{Name: "cleanup-stops-short", File: f, Old: "\tfor i := 0; i < len(c.values); i++ {", New: "\tfor i := 0; i < len(c.values)-1; i++ {", Expect: "C17.R4"},
+		{Name: "checkpoints-every-other-slot", File: f, Old: "checkPoint := now.Add(time.Duration(-1*i) * c.resolution)", New: "checkPoint := now.Add(time.Duration(-2*i) * c.resolution)", Expect: "C17.R4"},
+		{Name: "sum-skips-first-bucket", File: f, Old: "\tfor _, v := range c.values {\n\t\tout += int64(v)\n\t}", New: "\tfor _, v := range c.values[1:] {\n\t\tout += int64(v)\n\t}", Expect: "C17.R4"},
+		{Name: "inc-does-not-move-lastupdated", File: f, Old: "\tc.lastUpdated = now\n\t// Update usage stats", New: "\t// Update usage stats", Expect: "C17.R4"},
 		{Name: "seconds-not-slots", File: f, Old: "t.Truncate(c.resolution).UnixNano() / int64(c.resolution) % int64(len(c.values))", New: "t.Truncate(c.resolution).Unix() % int64(len(c.values))", Expect: "C17.R1"},
 		{Name: "count-without-cleanup", File: f, Old: "func (c *RollingCounter) Count() int64 {\n\tc.cleanup()\n", New: "func (c *RollingCounter) Count() int64 {\n", Expect: "C17.R2"},
 		{Name: "inc-without-cleanup", File: f, Old: "func (c *RollingCounter) Inc(v int) {\n\tc.cleanup()\n", New: "func (c *RollingCounter) Inc(v int) {\n", Expect: "C17.R2"},
@@ -386,4 +394,160 @@ func mutantsC17() []Mutant {
 		{Name: "ratio-guard-wrong-expr", File: "memmetrics/ratio.go", Old: "\tif a+b == 0 {", New: "\tif r.a.countedBuckets+r.b.countedBuckets == 0 {", Expect: "C17.R3"},
 		{Name: "neterr-ratio-guard-dropped", File: "memmetrics/roundtrip.go", Old: "\tif m.total.Count() == 0 {\n\t\treturn 0\n\t}\n", New: "", Expect: "C17.R3"},
 	}
+}
+
+// counterPhi: ph is a loop counter: constant init, +1 per iteration; returns the init value.
+func counterPhi(ph *ssa.Phi) (int64, bool) {
+	loop := loopBlocks(ph.Block())
+	init, nInit, ok := int64(0), 0, true
+	for i, e := range ph.Edges {
+		if loop[ph.Block().Preds[i]] {
+			bo, isB := e.(*ssa.BinOp)
+			if !isB || bo.Op != token.ADD || bo.X != ssa.Value(ph) {
+				ok = false
+				continue
+			}
+			if k, isC := constInt(bo.Y); !isC || k != 1 {
+				ok = false
+			}
+		} else {
+			k, isC := constInt(e)
+			if !isC {
+				ok = false
+			}
+			init = k
+			nInit++
+		}
+	}
+	return init, ok && nInit == 1
+}
+
+func c17Shape(p *Prog, r *Report, c *rollCtr) {
+	R := "fld(p0)." + c.resField
+	V := "fld(p0)." + c.values
+	// (a) clean-up visits the check points now - i*resolution for i = 0,1,... < len(buckets)
+	fn := c.cleanup
+	okA, whyA := false, "no loop counter found in the clean-up"
+	for _, b := range fn.Blocks {
+		for _, in := range b.Instrs {
+			ph, ok := in.(*ssa.Phi)
+			if !ok {
+				continue
+			}
+			init, isCtr := counterPhi(ph)
+			if !isCtr {
+				continue
+			}
+			name := "phi#" + ph.Name() + "@" + fn.Name()
+			// bound: i < len(values)
+			bound := false
+			for _, ifi := range ifs(fn) {
+				if cmp, ok := CanonCmp(BuildExpr(p, ifi.Cond, nil)); ok && cmp.Equal(ParseLin("len("+V+") - "+name, ">")) {
+					bound = true
+				}
+			}
+			// check point expression used in the staleness comparison
+			form := false
+			for _, b2 := range fn.Blocks {
+				for _, in2 := range b2.Instrs {
+					if call, ok := in2.(*ssa.Call); ok && isStdCall(call, "time", "Time.Add") {
+						rf := ToRat(BuildExpr(p, call, nil))
+						want := rfAtom("now").Add(rfAtom(name).Mul(rfAtom(R)), -1)
+						if rf.Equal(want) {
+							form = true
+						}
+					}
+				}
+			}
+			if init == 0 && bound && form {
+				okA = true
+			} else {
+				whyA = fmt.Sprintf("counter init=%d, bounded by len(buckets)=%v, check point = now - i*resolution=%v", init, bound, form)
+			}
+		}
+	}
+	r.Check(okA, "C17.R4", "memmetrics.(*RollingCounter)."+fn.Name()+": visits the check points now - i x resolution, i = 0..len(buckets)-1", p.FuncPos(fn), "counter from 0, step 1, bound len(buckets); check point now - i*resolution", whyA+": slots older than the window are not all examined, or the wrong instants are")
+	// (b) Count sums every bucket
+	var sumFn *ssa.Function
+	if cnt := p.MethodOf(c.typ, "Count"); cnt != nil {
+		for _, ret := range Returns(cnt) {
+			if call, ok := stripConv(ReturnOperand(ret, 0)).(*ssa.Call); ok && call.Common().StaticCallee() != nil && p.InModule(call.Common().StaticCallee()) {
+				sumFn = call.Common().StaticCallee()
+			}
+		}
+		if sumFn == nil {
+			sumFn = cnt
+		}
+	}
+	okB := false
+	if sumFn != nil {
+		r.Fn(FName(sumFn))
+		for _, ret := range Returns(sumFn) {
+			acc, ok := stripConv(ReturnOperand(ret, 0)).(*ssa.Phi)
+			if !ok {
+				continue
+			}
+			loop := loopBlocks(acc.Block())
+			exits := 0
+			for b := range loop {
+				for _, s := range b.Succs {
+					if !loop[s] {
+						exits++
+					}
+				}
+			}
+			step := false
+			for i, e := range acc.Edges {
+				if !loop[acc.Block().Preds[i]] {
+					continue
+				}
+				if bo, ok := stripConv(e).(*ssa.BinOp); ok && bo.Op == token.ADD && stripConv(bo.X) == ssa.Value(acc) {
+					if u, ok := stripConv(bo.Y).(*ssa.UnOp); ok && c.isElemAddr(u.X) {
+						step = true
+					}
+				}
+			}
+			if exits == 1 && step {
+				okB = true
+			}
+		}
+	}
+	r.Check(okB, "C17.R4", "memmetrics.RollingCounter: Count adds up every bucket", "-", "full-range fold acc += bucket", "the reported count is not the sum over all buckets")
+	// (c) Inc: bucket(now) += v ; lastUpdated = now (the same now)
+	okC, whyC := false, "no increment of a bucket by the method's argument"
+	for _, m := range p.Methods(c.typ) {
+		for _, b := range m.Blocks {
+			for _, in := range b.Instrs {
+				st, ok := in.(*ssa.Store)
+				if !ok || !c.isElemAddr(st.Addr) {
+					continue
+				}
+				bo, ok := stripConv(st.Val).(*ssa.BinOp)
+				if !ok || bo.Op != token.ADD {
+					continue
+				}
+				if _, isParam := stripConv(bo.Y).(*ssa.Parameter); !isParam {
+					continue
+				}
+				// index = mapping(t); lastUpdated := t
+				idx := st.Addr.(*ssa.IndexAddr).Index
+				var tArg ssa.Value
+				if call, ok := stripConv(idx).(*ssa.Call); ok && call.Common().StaticCallee() == c.mapping && len(call.Common().Args) == 2 {
+					tArg = call.Common().Args[1]
+				}
+				okLU := false
+				for _, st2 := range FieldStores(m, c.typ, c.lastUpd) {
+					if tArg != nil && st2.Val == tArg && BuildExpr(p, tArg, nil).String() == "now" {
+						okLU = true
+					}
+				}
+				if tArg != nil && okLU {
+					okC = true
+				} else {
+					whyC = "the incremented bucket is not the bucket of `now`, or lastUpdated is not set to that same instant"
+				}
+			}
+		}
+	}
+	r.Check(okC, "C17.R4", "memmetrics.RollingCounter: an increment goes to the bucket of now and moves lastUpdated to now", "-", "values[bucket(now)] += v; lastUpdated = now", whyC)
 }
